@@ -7,7 +7,8 @@ signed = first multi-limb width); the rest of the grid is drawn from the seed.  
 (Karatsuba multiplication; 8-bit limbs only inside the 65..2048-digit range) have their own TUs (`go_kara`, dense
 operands): always 2048 bits unsigned and 1568 bits (odd level 49: schoolbook since 38967ec), plus one drawn from the seed.
 C10M.h: built-in operands on either side of a multi-limb wide_integer, shift counts of every built-in type (`go_mix`),
-decimal text at tight digit counts (`go_text`) — `tus_mix`.
+decimal text at tight digit counts (`go_text`), shift counts given as cnl::constant / N_c literals of every value type
+(`go_shc`, binary and compound operators, widths up to 1024 bits with counts of 256 and more) — `tus_mix`.
 """
 import random
 
@@ -131,9 +132,56 @@ TEXT_FIXED = [(196, 'i32'), (196, 'u64'), (299, 'i64'), (392, 'i16'), (186, 'i8'
 TEXT_THOROUGH = [(495, 'i32'), (598, 'i32'), (681, 'i64'), (200, 'i32'), (176, 'i64'), (279, 'i16'), (309, 'i8')]
 
 
+# shift counts given as cnl::constant (shc lines): every limb type; widths below, at and above 256 bits (an 8-bit count
+# type holds 0..255), odd limb counts, one limb over a power of two; two more drawn from the seed
+SHC_FIXED = [(511, 'i32'), (1024, 'u32'), (319, 'i8'), (255, 'i16'), (300, 'u64'), (512, 'u16'), (1000, 'i64'), (320, 'u8'), (200, 'i32')]
+SHC_THOROUGH = [(2048, 'u64'), (2047, 'i16'), (257, 'u8'), (513, 'i32'), (768, 'u16'), (129, 'i64'), (600, 'i8')]
+# value types of the constant: (C++ spelling of a value, lowest, max)
+SHC_TYPES = [('%d', -2**31, 2**31 - 1), ('%dU', 0, 2**32 - 1), ('%dL', -2**63, 2**63 - 1), ('%dUL', 0, 2**64 - 1), ('short(%d)', -2**15, 2**15 - 1),
+             ('(unsigned short)%d', 0, 2**16 - 1), ('%dLL', -2**63, 2**63 - 1), ('%dULL', 0, 2**64 - 1), ('(unsigned char)%d', 0, 255),
+             ('(signed char)%d', -128, 127), ('cnl::intmax_t{%d}', -2**127, 2**127 - 1), ('cnl::uintmax_t{%d}', 0, 2**128 - 1)]
+
+
+def shc_constants(d, t, rnd):
+    """the cnl::constant types a wide_integer<d, t> is shifted by: every count as an N_c literal (constant<cnl::intmax_t{N}>)
+    and as a constant of a built-in value type in rotation"""
+    w, n = storage(d, t)
+    N = w * n
+    counts = [0, 1, w - 1, w, w + 1, 127, 128, 129, 255, 256, 257, 260, 300, 511, 512, 513, 767, 1000, 1023, N - w, N - 1, N, N + 5]
+    counts += [rnd.randrange(N) for _ in range(2)] + [rnd.randrange(256, N) for _ in range(2 if N > 256 else 0)]
+    counts = [k for k in dict.fromkeys(counts) if 0 <= k <= N + 5]
+    out = []
+    rot = rnd.randrange(len(SHC_TYPES))
+    for k in counts + [-1, -w - 2, -257]:
+        if k >= 0:
+            out.append('decltype(%d_c)' % k)
+        for _ in range(len(SHC_TYPES)):
+            spell, lo, hi = SHC_TYPES[rot % len(SHC_TYPES)]
+            rot += 1
+            if lo <= k <= hi and not (k >= 0 and 'intmax_t' in spell and 'uint' not in spell):   # = the literal
+                out.append('constant<%s>' % (spell % k))
+                break
+    return out
+
+
 def tus_mix(tier, seed, hdr):
     rnd = random.Random(seed * 15485863 + 1012)
     res = []
+    rs = random.Random(seed * 32452843 + 1013)
+    shc = list(SHC_FIXED) + (SHC_THOROUGH if tier == 'thorough' else [])
+    spool = [(d, t) for t in CT for d in WIDTHS if instantiable(d, t) and (d, t) not in shc and storage(d, t)[1] < THRESHOLD]
+    shc += rs.sample(spool, 2 if tier == 'quick' else 8)
+    per = 1
+    for i in range(0, len(shc), per):
+        body = hdr + 'using namespace cnl::literals;\nint main(){ install();\n'
+        for d, t in shc[i:i + per]:
+            assert instantiable(d, t), (d, t)
+            body += '  { Rng rng(seed_from_env()*1000003ull+%d);\n' % (d * 149 + BITS[t] + (7 if t[0] == 'i' else 0))
+            body += '  go_shc<wide_integer<%d, %s>,\n    %s>(rng); }\n' % (d, CT[t], ',\n    '.join(shc_constants(d, t, rs)))
+        body += '}\n'
+        res.append(dict(name='C10_shc_%d' % (i // per), src=body, compiler='g++', run_timeout=1500))
+        if tier == 'thorough' and (i // per) % 3 == 0:
+            res.append(dict(res[-1], name='C10_shc_%d_clang' % (i // per), compiler='clang++'))
     combos = list(MIX_FIXED) + (MIX_THOROUGH if tier == 'thorough' else [])
     pool = [(d, t) for t in CT for d in WIDTHS if instantiable(d, t) and (d, t) not in combos]
     combos += rnd.sample(pool, 1 if tier == 'quick' else 6)
@@ -214,6 +262,10 @@ RULE = ("per compiled wide_integer<Digits, Narrowest>: corner values (0, 1, -1, 
         "either side of + - * / % & and the six comparisons against wide operands 0, +-1, max, lowest, 10, -2, +-3, +-2^31, +-2^63, +-2^127, random "
         "(result type observed) for every limb width and signedness incl. a width where the signed result type needs one more limb (224/u32); "
         "shift counts of every built-in type (8-bit count types up to 127 / 255, counts 126..130, 254..256, N-1, N, negative); "
+        "shift counts given as cnl::constant<K> (<< >> <<= >>=), every count both as a K_c literal (128-bit count) and as a constant of a built-in value type "
+        "in rotation (8..128 bits, signed and unsigned), K in {0, 1, w-1, w, w+1, 127..129, 255, 256, 257, 260, 300, 511..513, 767, 1000, 1023, N-w, N-1, N, N+5, "
+        "negative, 2-4 by seed (two of them >= 256)} for 511/i32, 1024/u32, 319/i8, 255/i16, 300/u64, 512/u16, 1000/i64, 320/u8, 200/i32 + 2 by seed, on 1, -1, max, lowest, "
+        "a dense random value and its complement, seeded values; "
         "decimal text at digit counts where Digits*log10(2) is within 0.02 of an integer (196, 299, 392, 186, 289, 588, 206 + 2 by seed): "
         "max, max-1, +-10^k, 10^k-1, max/10, lowest, lowest+1, random values with the maximum number of digits, through operator<<, "
         "to_chars_static, cnl::to_chars into buffers of the exact length / one short / the static capacity / 0 / 1, and to_chars_capacity; non-trivial = the property constrains the result (divisor non-zero, 0 <= shift < N); " + C10F.RULE_FLOAT)
